@@ -16,7 +16,8 @@ RULE = ("Complete enumeration. Compression maps: every n in 1..N_MAX (quick 150 
         "block-Toeplitz matrix (symmetric leading block), and the compressed and (row,col) forms name the same positions in "
         "the same order. Because the helpers are memoised, a second sub-check walks the whole (N,W) domain in other query "
         "orders inside one process (W descending, N and W descending, W outer, seeded shuffles). A Hypothesis sub-check adds random finite float matrices. Every enumerated item is non-trivial "
-        "except n=1 / (N,W)=(1,1); distinct by construction (one item per n / per (N,W)).")
+        "except n=1 / (N,W)=(1,1); distinct by construction (one item per n / per (N,W))."
+        ' Round trips also for float32/float16/int64/int32/int16/uint8/bool matrices with values up to the type maximum; every sub-check also in a python -O process.')
 ASSUMPTIONS = ["private helper names are taken from the property's anchors; if one disappears the check exits 2 (machinery), not 1",
                "values: float equality (==), so -0.0/+0.0 and NaN payloads are outside the statement; |x| <= 1e300"]
 
@@ -203,10 +204,51 @@ def float_matrix_case(draw):
     n = draw(st.integers(1, 40))
     seed = draw(st.integers(0, 2 ** 32 - 1))
     scale = draw(st.sampled_from([1e-300, 1e-8, 1.0, 1e8, 1e300, "subnormal"]))
-    return {"n": n, "seed": seed, "scale": scale}
+    case = {"n": n, "seed": seed, "scale": scale}
+    if draw(st.integers(0, 3)) == 0:
+        # the same round trip for matrices of another element type, with values up to that type's largest (the maps are index
+        # maps: no element type is special, and nothing may be computed in a type that cannot hold twice a diagonal entry)
+        case["dtype"] = draw(st.sampled_from(["float32", "float16", "int64", "int32", "int16", "uint8", "bool"]))
+        case["near_max"] = draw(st.booleans())
+    return case
+
+
+def _execute_other_dtype(case, t):
+    mc, _ = _mods()
+    n, dt = case["n"], np.dtype(case["dtype"])
+    rng = np.random.default_rng(case["seed"])
+    if dt.kind == "f":
+        top = float(np.finfo(dt).max) if case["near_max"] else 1.0
+        a = (rng.uniform(-1, 1, size=(n, n)) * top).astype(dt)
+        if case["near_max"]:
+            a[rng.integers(0, n), :] = np.finfo(dt).max        # whole row at the very top, diagonal entry included
+    elif dt.kind == "b":
+        a = rng.integers(0, 2, size=(n, n)).astype(bool)
+    else:
+        info = np.iinfo(dt)
+        hi = min(int(info.max), 2 ** 31) if case["near_max"] else min(int(info.max), 100)
+        lo = max(int(info.min), -hi)
+        a = rng.integers(lo, hi, size=(n, n), endpoint=True).astype(dt)
+    sym = np.triu(a) + np.triu(a, 1).T if dt.kind != "b" else (np.triu(a) | np.triu(a, 1).T)
+    sym = sym.astype(dt)
+    before = sym.copy()
+    try:
+        back = mc.reinflate_matrix(mc.compress_matrix(sym))
+    except Exception as e:
+        raise Violation(f"compress->reinflate of a symmetric {dt.name} matrix raised {type(e).__name__}: {e}")
+    want = before.astype(np.float64)
+    if np.shape(back) != want.shape or not np.array_equal(np.asarray(back, dtype=np.float64), want):
+        raise Violation(f"compress->reinflate changed a symmetric {dt.name} matrix (n={n}, values up to {'the type maximum' if case['near_max'] else 'small'})")
+    if not np.array_equal(sym, before):
+        raise Violation("compress_matrix modified its argument")
+    t.cls(f"dtype_{dt.name}")
+    if n >= 2:
+        t.mark_nontrivial()
 
 
 def execute_float(case, t):
+    if case.get("dtype"):
+        return _execute_other_dtype(case, t)
     mc, _ = _mods()
     n = case["n"]
     rng = np.random.default_rng(case["seed"])
@@ -234,9 +276,9 @@ def execute_float(case, t):
 
 SUBCHECKS = [
     SubCheck(name="enumerate_all_sizes", enumerate=enumerate_cases, execute=execute_enum, exhaustive=True,
-             budget={"quick": 1, "thorough": 1}, shards={"quick": 4, "thorough": 16}, modes=["jit"]),
+             budget={"quick": 1, "thorough": 1}, shards={"quick": 4, "thorough": 16}, modes=["jit", "pyopt"]),
     SubCheck(name="memoised_helpers_in_other_query_orders", enumerate=enumerate_orders, execute=execute_order, exhaustive=False,
              budget={"quick": 1, "thorough": 1}, shards={"quick": 3, "thorough": 16}, modes=["jit"]),
     SubCheck(name="random_float_round_trip", strategy=float_matrix_case, execute=execute_float,
-             budget={"quick": 400, "thorough": 8000}, shards={"quick": 1, "thorough": 4}, modes=["jit"]),
+             budget={"quick": 400, "thorough": 8000}, shards={"quick": 1, "thorough": 4}, modes=["jit", "pyopt"]),
 ]
